@@ -12,7 +12,7 @@ import gen  # noqa
 import harness as H  # noqa
 
 H.quiet()
-line = "    put 1 into zz\n    do doer param per x 1\n    go next if zz >= 1"
+line = "    put 1 into zz\n    do doer param at enter per x zz"
 text = gen.REF_SKELETON % {k: line for k in gen.REF_KINDS}
 ok, b = H.build(text, os.getcwd(), "rp")
 assert ok, b
